@@ -112,6 +112,34 @@ Proof.
   split; [intro E; rewrite E in Hg2; cbn in Hg2; lia|]. split; [exact Hs2|apply nosp_gsub; [exact Hn|lia|lia]].
 Qed.
 
+(* ---- coverage: the pieces, read in order, are the words; an over-long word is cut into
+   hyphen-ended chunks and a remainder ---- *)
+Definition optw (w : gstr) : list gstr := match w with [] => [] | _ => [w] end.
+
+Inductive cov : list gstr -> list gstr -> Prop :=
+| cov_nil : cov [] []
+| cov_word w ps ws : cov ps ws -> cov (w :: ps) (w :: ws)
+| cov_chunk o w' ps ws : w' <> [] -> cov ps (w' :: ws) -> cov ((o ++ [HYPHEN]) :: ps) ((o ++ w') :: ws).
+
+Lemma cov_split_last ps : forall ws o w', w' <> [] -> cov (ps ++ [o ++ w']) ws -> cov (ps ++ [o ++ [HYPHEN]] ++ [w']) ws.
+Proof.
+  induction ps as [|p ps IH]; intros ws o w' Hne Hc.
+  - cbn [app] in *. inversion Hc as [|x ps0 ws0 Hc0|o2 w2 ps0 ws0 Hne2 Hc0]; subst.
+    + inversion Hc0; subst. apply cov_chunk; [exact Hne|]. apply cov_word. apply cov_nil.
+    + inversion Hc0.
+  - cbn [app] in *. inversion Hc as [|x ps0 ws0 Hc0|o2 w2 ps0 ws0 Hne2 Hc0]; subst.
+    + apply cov_word. apply IH; assumption.
+    + apply cov_chunk; [exact Hne2|]. apply IH; assumption.
+Qed.
+
+Lemma gsub_split w k : 0 <= k <= glen w -> gsub w 0 k ++ gsub w k (glen w) = w.
+Proof.
+  intro Hk. unfold glen, zlen in *. replace k with (Z.of_nat (Z.to_nat k)) by lia.
+  change 0 with (Z.of_nat 0). rewrite !gsub_range by lia. cbn [skipn]. rewrite Nat.sub_0_r.
+  rewrite (firstn_all2 (n := length (clusters w) - Z.to_nat k)) by (rewrite skipn_length; lia).
+  rewrite <- concat_app, firstn_skipn. apply clusters_concat.
+Qed.
+
 (* ---- the word loop ---- *)
 Definition St (W : Z) (pss : list (list gstr)) (cps : list gstr) : Prop :=
   Forall (lp_ok W) pss /\ chain W pss /\ Forall pc_ok cps /\
@@ -133,19 +161,25 @@ Proof.
     rewrite glen_sp_app; [lia|apply ln_ne; [discriminate|exact HF]|exact Hs|exact Hws].
 Qed.
 
-Lemma append_word_struct W fuel : 2 <= W -> forall pss w cps r,
+Lemma append_word_struct W fuel : 2 <= W -> forall ws pss w cps r,
   (w = [] \/ pc_ok w) -> Forall (lp_ok W) pss -> chain W pss -> Forall pc_ok cps ->
   (cps <> [] -> glen (ln cps) < W /\ link W pss (glen (hd [] cps))) ->
   (cps = [] -> link W pss (Z.min (glen w) W)) ->
+  cov (concat pss ++ cps ++ optw w) ws ->
   append_word fuel (map ln pss) w (ln cps) W = Ok r ->
-  exists pss' cps', r = (map ln pss', ln cps') /\ St W pss' cps'.
+  exists pss' cps', r = (map ln pss', ln cps') /\ St W pss' cps' /\ cov (concat pss' ++ cps') ws.
 Proof.
-  intro HW. induction fuel as [|fuel IH]; intros pss w cps r Hw Hpss Hch Hcps Hne Hnil Hr; [discriminate|].
+  intro HW. induction fuel as [|fuel IH]; intros ws pss w cps r Hw Hpss Hch Hcps Hne Hnil Hcov Hr; [discriminate|].
   cbn [append_word] in Hr. destruct (0 <? glen w) eqn:E0.
-  2:{ injection Hr as <-. exists pss, cps. split; [reflexivity|]. repeat split; try assumption; try (apply Hne; assumption).
+  2:{ injection Hr as <-. exists pss, cps. split; [reflexivity|].
+      assert (Hw0 : w = []) by (apply glen_zero_iff; pose proof (glen_nonneg w); glia).
+      split; [|rewrite Hw0 in Hcov; cbn [optw] in Hcov; rewrite app_nil_r in Hcov; exact Hcov].
+      repeat split; try assumption; try (apply Hne; assumption).
       intro Ec. specialize (Hnil Ec). assert (Hg : glen w = 0) by (pose proof (glen_nonneg w); glia). rewrite Hg in Hnil.
       replace (Z.min 0 W) with 0 in Hnil by glia. exact Hnil. }
   assert (Hwok : pc_ok w) by (destruct Hw as [->|Hw]; [cbn in E0; discriminate|exact Hw]).
+  assert (Hoptw : optw w = [w]) by (destruct Hwok as [Hwne _]; destruct w; [congruence|reflexivity]).
+  rewrite Hoptw in Hcov.
   destruct (ln_add cps w Hcps Hwok) as (Eadd & Gadd & Fadd & Hadd).
   rewrite (ln_empty_iff cps Hcps) in Hr, Eadd, Gadd.
   pose proof (glen_nonneg (ln cps)) as Hllnn.
@@ -162,7 +196,8 @@ Proof.
       assert (A3 : chain W (pss ++ [[w]])).
       { apply chain_snoc; [exact Hch|]. cbn [hd]. replace (Z.min (glen w) W) with (glen w) in Hnil by glia. exact Hnil. }
       assert (A6 : @nil gstr = [] -> link W (pss ++ [[w]]) (Z.min (glen []) W)) by (intros _; apply link_snoc; left; glia).
-      exact (IH (pss ++ [[w]]) [] [] r (or_introl eq_refl) A2 A3 (Forall_nil _) (Hnone _) A6 Hr).
+      assert (A7 : cov (concat (pss ++ [[w]]) ++ [] ++ optw []) ws) by (rewrite concat_app; cbn [concat optw app]; rewrite !app_nil_r; exact Hcov).
+      exact (IH ws (pss ++ [[w]]) [] [] r (or_introl eq_refl) A2 A3 (Forall_nil _) (Hnone _) A6 A7 Hr).
     + destruct (W <? glen w) eqn:Eb.
       * (* longer than the width: a chunk and a hyphen *)
         unfold gadd in Hr. cbn [ln join app] in Hr.
@@ -177,13 +212,18 @@ Proof.
         { apply chain_snoc; [exact Hch|]. cbn [hd]. rewrite C2. replace (Z.min (glen w) W) with W in Hnil by glia. exact Hnil. }
         assert (A6 : @nil gstr = [] -> link W (pss ++ [[chunk]]) (Z.min (glen (gsub w (W - 1) (glen w))) W)).
         { intros _. apply link_snoc. left. cbn [ln join]. exact C2. }
-        exact (IH (pss ++ [[chunk]]) (gsub w (W - 1) (glen w)) [] r (or_intror C3) A2 A3 (Forall_nil _) (Hnone _) A6 Hr).
+        assert (A7 : cov (concat (pss ++ [[chunk]]) ++ [] ++ optw (gsub w (W - 1) (glen w))) ws).
+        { destruct C3 as (C3ne & _). assert (Eo : optw (gsub w (W - 1) (glen w)) = [gsub w (W - 1) (glen w)]) by (destruct (gsub w (W - 1) (glen w)); [congruence|reflexivity]).
+          rewrite Eo, concat_app. cbn [concat app]. rewrite <- app_assoc. unfold chunk. apply cov_split_last; [exact C3ne|].
+          rewrite (gsub_split w (W - 1)) by glia. exact Hcov. }
+        exact (IH ws (pss ++ [[chunk]]) (gsub w (W - 1) (glen w)) [] r (or_intror C3) A2 A3 (Forall_nil _) (Hnone _) A6 A7 Hr).
       * (* fits *)
         rewrite Eadd in Hr.
         assert (A5 : [w] <> [] -> glen (ln [w]) < W /\ link W pss (glen (hd [] [w]))).
         { intros _. split; [glia|]. cbn [hd]. replace (Z.min (glen w) W) with (glen w) in Hnil by glia. exact Hnil. }
         assert (A6 : [w] = [] -> link W pss (Z.min (glen []) W)) by discriminate.
-        exact (IH pss [] [w] r (or_introl eq_refl) Hpss Hch Fadd A5 A6 Hr).
+        assert (A7 : cov (concat pss ++ [w] ++ optw []) ws) by (cbn [optw]; rewrite app_nil_r; exact Hcov).
+        exact (IH ws pss [] [w] r (or_introl eq_refl) Hpss Hch Fadd A5 A6 A7 Hr).
   - (* the current line holds pieces *)
     clear Hnil. destruct (Hne ltac:(discriminate)) as [Hlt Hlk]. cbv iota in Hr, Eadd, Gadd. cbn [hd] in Hlk.
     assert (Hnone : forall X : Prop, (@nil gstr) <> [] -> X) by (intros X Hx; exfalso; apply Hx; reflexivity).
@@ -196,7 +236,8 @@ Proof.
       { apply Forall_app. split; [exact Hpss|]. constructor; [|constructor]. split; [discriminate|]. split; [exact Fadd|glia]. }
       assert (A3 : chain W (pss ++ [(p :: cps') ++ [w]])) by (apply chain_snoc; [exact Hch|cbn [hd app]; exact Hlk]).
       assert (A6 : @nil gstr = [] -> link W (pss ++ [(p :: cps') ++ [w]]) (Z.min (glen []) W)) by (intros _; apply link_snoc; left; glia).
-      exact (IH (pss ++ [(p :: cps') ++ [w]]) [] [] r (or_introl eq_refl) A2 A3 (Forall_nil _) (Hnone _) A6 Hr).
+      assert (A7 : cov (concat (pss ++ [(p :: cps') ++ [w]]) ++ [] ++ optw []) ws) by (rewrite concat_app; cbn [concat optw]; rewrite !app_nil_r; exact Hcov).
+      exact (IH ws (pss ++ [(p :: cps') ++ [w]]) [] [] r (or_introl eq_refl) A2 A3 (Forall_nil _) (Hnone _) A6 A7 Hr).
     + destruct (W <? ll + (glen w + 1)) eqn:Eb.
       * (* emit the line, retry the word on an empty one *)
         change (map ln pss ++ [ln (p :: cps')]) with (map ln pss ++ map ln [p :: cps']) in Hr. rewrite <- map_app in Hr.
@@ -206,12 +247,14 @@ Proof.
         assert (A3 : chain W (pss ++ [p :: cps'])) by (apply chain_snoc; [exact Hch|exact Hlk]).
         assert (A6 : @nil gstr = [] -> link W (pss ++ [p :: cps']) (Z.min (glen w) W)).
         { intros _. apply link_snoc. right. fold ll. glia. }
-        exact (IH (pss ++ [p :: cps']) w [] r (or_intror Hwok) A2 A3 (Forall_nil _) (Hnone _) A6 Hr).
+        assert (A7 : cov (concat (pss ++ [p :: cps']) ++ [] ++ optw w) ws) by (rewrite Hoptw, concat_app; cbn [concat]; rewrite app_nil_r, <- app_assoc; exact Hcov).
+        exact (IH ws (pss ++ [p :: cps']) w [] r (or_intror Hwok) A2 A3 (Forall_nil _) (Hnone _) A6 A7 Hr).
       * rewrite Eadd in Hr.
         assert (A5 : (p :: cps') ++ [w] <> [] -> glen (ln ((p :: cps') ++ [w])) < W /\ link W pss (glen (hd [] ((p :: cps') ++ [w])))).
         { intros _. split; [glia|]. cbn [hd app]. exact Hlk. }
         assert (A6 : (p :: cps') ++ [w] = [] -> link W pss (Z.min (glen []) W)) by discriminate.
-        exact (IH pss [] ((p :: cps') ++ [w]) r (or_introl eq_refl) Hpss Hch Fadd A5 A6 Hr).
+        assert (A7 : cov (concat pss ++ ((p :: cps') ++ [w]) ++ optw []) ws) by (cbn [optw]; rewrite app_nil_r; exact Hcov).
+        exact (IH ws pss [] ((p :: cps') ++ [w]) r (or_introl eq_refl) Hpss Hch Fadd A5 A6 A7 Hr).
 Qed.
 
 (* ---- the cluster loop ---- *)
@@ -230,32 +273,53 @@ Qed.
 Lemma St_link W pss cps w : 2 <= W -> St W pss cps -> cps = [] -> link W pss (Z.min (glen w) W).
 Proof. intros HW (_ & _ & _ & _ & Hn) Hc. apply (link_mono W pss 0); [pose proof (glen_nonneg w); lia|apply Hn, Hc]. Qed.
 
+Lemma cov_snoc ps ws w : cov ps ws -> cov (ps ++ [w]) (ws ++ [w]).
+Proof. induction 1; cbn [app]; [apply cov_word, cov_nil|apply cov_word; assumption|apply cov_chunk; assumption]. Qed.
+
+Lemma cov_optw ps ws w : cov ps ws -> cov (ps ++ optw w) (ws ++ optw w).
+Proof. intro Hc. destruct w; cbn [optw]; [rewrite !app_nil_r; exact Hc|apply cov_snoc, Hc]. Qed.
+
+(* the words of a cluster list: maximal runs of clusters that are not a space *)
+Fixpoint wds (cl : list (list Z)) (cur : gstr) : list gstr :=
+  match cl with
+  | [] => optw cur
+  | c :: cl' => if first_rune c =? SP then optw cur ++ wds cl' [] else wds cl' (cur ++ c)
+  end.
+
 Lemma wrap_loop_struct ct W : 2 <= W -> all_safe ct ->
-  forall rest wordcl pre pss cps r,
+  forall rest wordcl pre pss cps done r,
   clusters ct = pre ++ wordcl ++ rest -> Forall (fun c => first_rune c <> SP) wordcl -> St W pss cps ->
+  cov (concat pss ++ cps) done ->
   wrap_loop rest (map ln pss) (concat wordcl) (ln cps) W = Ok r ->
-  exists pss' w' cps', r = (map ln pss', w', ln cps') /\ St W pss' cps' /\ (w' = [] \/ pc_ok w').
+  exists pss' w' cps' done', r = (map ln pss', w', ln cps') /\ St W pss' cps' /\ (w' = [] \/ pc_ok w') /\
+    cov (concat pss' ++ cps') done' /\ done' ++ optw w' = done ++ wds rest (concat wordcl).
 Proof.
-  intros HW Hct. induction rest as [|ch rest IH]; intros wordcl pre pss cps r E Hn Hst Hr.
-  - cbn in Hr. injection Hr as <-. exists pss, (concat wordcl), cps. split; [reflexivity|]. split; [exact Hst|].
-    apply (word_pc ct pre wordcl [] Hct E Hn).
-  - cbn [wrap_loop] in Hr. destruct (first_rune ch =? SP) eqn:Esp.
+  intros HW Hct. induction rest as [|ch rest IH]; intros wordcl pre pss cps done r E Hn Hst Hcov Hr.
+  - cbn in Hr. injection Hr as <-. exists pss, (concat wordcl), cps, done. split; [reflexivity|]. split; [exact Hst|].
+    split; [apply (word_pc ct pre wordcl [] Hct E Hn)|]. split; [exact Hcov|reflexivity].
+  - cbn [wrap_loop wds] in *. destruct (first_rune ch =? SP) eqn:Esp.
     + unfold append_word_to_wrapped_line in Hr. replace (W <? 2) with false in Hr by lia.
       destruct (append_word _ (map ln pss) (concat wordcl) (ln cps) W) as [[l2 c2]| |] eqn:Ea; cbn [bind] in Hr; try discriminate.
       pose proof Hst as (S1 & S2 & S3 & S4 & S5).
-      destruct (append_word_struct W _ HW pss (concat wordcl) cps (l2, c2) (word_pc ct pre wordcl (ch :: rest) Hct E Hn) S1 S2 S3 S4
-                  (St_link W pss cps (concat wordcl) HW Hst) Ea) as (pss' & cps' & Er & Hst').
+      assert (Hcov' : cov (concat pss ++ cps ++ optw (concat wordcl)) (done ++ optw (concat wordcl))) by (rewrite app_assoc; apply cov_optw, Hcov).
+      destruct (append_word_struct W _ HW (done ++ optw (concat wordcl)) pss (concat wordcl) cps (l2, c2) (word_pc ct pre wordcl (ch :: rest) Hct E Hn) S1 S2 S3 S4
+                  (St_link W pss cps (concat wordcl) HW Hst) Hcov' Ea) as (pss' & cps' & Er & Hst' & Hc').
       injection Er as -> ->. change (@nil Z) with (concat (@nil (list Z))) in Hr.
-      apply (IH [] (pre ++ wordcl ++ [ch]) pss' cps' r); [rewrite E, <- !app_assoc; reflexivity|constructor|exact Hst'|exact Hr].
+      destruct (IH [] (pre ++ wordcl ++ [ch]) pss' cps' (done ++ optw (concat wordcl)) r) as (pss2 & w2 & cps2 & done2 & Er2 & Hst2 & Hw2 & Hc2 & Hd2);
+        [rewrite E, <- !app_assoc; reflexivity|constructor|exact Hst'|exact Hc'|exact Hr|].
+      exists pss2, w2, cps2, done2. split; [exact Er2|split; [exact Hst2|split; [exact Hw2|split; [exact Hc2|]]]].
+      rewrite Hd2. cbn [concat]. rewrite <- app_assoc. reflexivity.
     + unfold gadd in Hr. assert (Ec : concat wordcl ++ ch = concat (wordcl ++ [ch])) by (rewrite concat_app; cbn; rewrite app_nil_r; reflexivity).
-      rewrite Ec in Hr. apply (IH (wordcl ++ [ch]) pre pss cps r); [rewrite E, <- !app_assoc; reflexivity| |exact Hst|exact Hr].
+      rewrite Ec in Hr |- *. apply (IH (wordcl ++ [ch]) pre pss cps done r); [rewrite E, <- !app_assoc; reflexivity| |exact Hst|exact Hcov|exact Hr].
       apply Forall_app. split; [exact Hn|]. constructor; [lia|constructor].
 Qed.
 
-(* Wrap: the lines are lines of pieces, none wider than the width, broken greedily *)
+(* Wrap: the lines are lines of pieces, none wider than the width, broken greedily, and the
+   pieces are the words of the collapsed text in order (over-long words cut into chunks) *)
 Theorem wrap_structure text w sep ct b : collapse_space text sep = Ok ct -> all_safe ct -> ct <> [] ->
   wrap text w sep = Ok b ->
-  exists pss, b_lines b = map ln pss /\ Forall (lp_ok (Z.max w 2)) pss /\ chain (Z.max w 2) pss.
+  exists pss, b_lines b = map ln pss /\ Forall (lp_ok (Z.max w 2)) pss /\ chain (Z.max w 2) pss /\
+              cov (concat pss) (wds (clusters ct) []).
 Proof.
   intros Hc Hs Hne Hw. unfold wrap in Hw. rewrite Hc in Hw. cbn [bind] in Hw.
   set (W := if w <? 2 then 2 else w) in *. assert (HW : 2 <= W) by (unfold W; destruct (w <? 2) eqn:E; lia).
@@ -265,25 +329,28 @@ Proof.
   assert (Hst0 : St W [] []).
   { unfold St. split; [apply Forall_nil|]. split; [exact I|]. split; [apply Forall_nil|]. split; [intro Hx; exfalso; apply Hx; reflexivity|intros _; exact I]. }
   change (@nil gstr) with (map ln []) in El at 1. change (@nil Z) with (concat (@nil (list Z))) in El at 1. change (@nil Z) with (ln []) in El.
-  destruct (wrap_loop_struct ct W HW Hs (clusters ct) [] [] [] [] _ eq_refl ltac:(constructor) Hst0 El) as (pss1 & w1 & cps1 & Er & Hst1 & Hw1).
-  injection Er as -> -> ->.
-  assert (Hfin : forall pss cps l c, St W pss cps -> (l, c) = (map ln pss, ln cps) ->
-            exists pss', (if gis_empty c then l else l ++ [c]) = map ln pss' /\ Forall (lp_ok W) pss' /\ chain W pss').
-  { intros pss cps l c (S1 & S2 & S3 & S4 & S5) Elc. injection Elc as -> ->. destruct cps as [|p cps'].
-    - exists pss. cbn. repeat split; assumption.
+  destruct (wrap_loop_struct ct W HW Hs (clusters ct) [] [] [] [] [] _ eq_refl ltac:(constructor) Hst0 cov_nil El)
+    as (pss1 & w1 & cps1 & done1 & Er & Hst1 & Hw1 & Hc1 & Hd1).
+  injection Er as -> -> ->. cbn [app concat] in Hd1.
+  assert (Hfin : forall pss cps l c ws, St W pss cps -> cov (concat pss ++ cps) ws -> (l, c) = (map ln pss, ln cps) ->
+            exists pss', (if gis_empty c then l else l ++ [c]) = map ln pss' /\ Forall (lp_ok W) pss' /\ chain W pss' /\ cov (concat pss') ws).
+  { intros pss cps l c ws (S1 & S2 & S3 & S4 & S5) Hcv Elc. injection Elc as -> ->. destruct cps as [|p cps'].
+    - exists pss. cbn. rewrite app_nil_r in Hcv. repeat split; assumption.
     - destruct (S4 ltac:(discriminate)) as [Hlt Hlk]. pose proof (ln_ne (p :: cps') ltac:(discriminate) S3) as Hlne.
       assert (Hlp : lp_ok W (p :: cps')) by (split; [discriminate|split; [exact S3|lia]]).
       exists (pss ++ [p :: cps']). split.
       { destruct (ln (p :: cps')) eqn:Eln; [congruence|]. cbn [gis_empty]. rewrite <- Eln, map_app. reflexivity. }
       split; [apply Forall_app; split; [exact S1|constructor; [exact Hlp|constructor]]|].
-      apply chain_snoc; [exact S2|exact Hlk]. }
+      split; [apply chain_snoc; [exact S2|exact Hlk]|]. rewrite concat_app. cbn [concat]. rewrite app_nil_r. exact Hcv. }
   destruct (gis_empty w1) eqn:Ee.
-  - cbn [bind] in Hw. injection Hw as <-. cbn [b_lines]. apply (Hfin pss1 cps1 _ _ Hst1 eq_refl).
+  - cbn [bind] in Hw. injection Hw as <-. cbn [b_lines]. destruct w1; [|discriminate]. cbn [optw] in Hd1. rewrite app_nil_r in Hd1. subst done1.
+    apply (Hfin pss1 cps1 _ _ _ Hst1 Hc1 eq_refl).
   - unfold append_word_to_wrapped_line in Hw. replace (W <? 2) with false in Hw by lia.
     destruct (append_word _ (map ln pss1) w1 (ln cps1) W) as [[l2 c2]| |] eqn:Ea; cbn [bind] in Hw; try discriminate.
     pose proof Hst1 as (S1 & S2 & S3 & S4 & S5).
-    destruct (append_word_struct W _ HW pss1 w1 cps1 (l2, c2) Hw1 S1 S2 S3 S4 (St_link W pss1 cps1 w1 HW Hst1) Ea) as (pss2 & cps2 & Er & Hst2).
-    injection Hw as <-. cbn [b_lines]. apply (Hfin pss2 cps2 _ _ Hst2 Er).
+    assert (Hcov' : cov (concat pss1 ++ cps1 ++ optw w1) (wds (clusters ct) [])) by (rewrite <- Hd1, app_assoc; apply cov_optw, Hc1).
+    destruct (append_word_struct W _ HW _ pss1 w1 cps1 (l2, c2) Hw1 S1 S2 S3 S4 (St_link W pss1 cps1 w1 HW Hst1) Hcov' Ea) as (pss2 & cps2 & Er & Hst2 & Hc2).
+    injection Hw as <-. cbn [b_lines]. apply (Hfin pss2 cps2 _ _ _ Hst2 Hc2 Er).
 Qed.
 
 End C06R.
